@@ -35,7 +35,7 @@ ASSUMPTIONS = [
     'metadata for the dataframe/export checks is non-jagged',
 ]
 ANCHORS = ['Table.sum', 'Table.min', 'Table.max', 'Table.nonzero_counts', 'Table.reduce', 'Table.get_table_density', 'compute_counts_per_sample_stats', '_summarize_table', 'Table.to_dataframe', 'Table.metadata_to_dataframe', '_export_metadata']
-REQUIRED = ['reports_printed_to_stdout', 'scale_head_cli', 'export_metadata_both_axes_at_once', 'stats_with_stored_zero', 'stats_with_non_finite_count', 'metadata_given_as_tuples', 'reduce_callable_kinds_checked', 'sum_checked', 'minmax_checked', 'minmax_negative_only_vectors',
+REQUIRED = ['metadata_with_empty_list_category', 'reports_printed_to_stdout', 'scale_head_cli', 'export_metadata_both_axes_at_once', 'stats_with_stored_zero', 'stats_with_non_finite_count', 'metadata_given_as_tuples', 'reduce_callable_kinds_checked', 'sum_checked', 'minmax_checked', 'minmax_negative_only_vectors',
             'nonzero_counts_checked', 'trailing_empty_vector_cases',
             'reduce_checked', 'stats_checked', 'summarize_default',
             'summarize_qualitative', 'summarize_observations',
@@ -494,8 +494,26 @@ def run_case(ctx, index):
                 if hit:
                     tm = gen.build(biom, s2, 'dense')
                     ctx.count('metadata_given_as_tuples')
+            spec_m = spec
+            if tm is t and r.random() < .25:
+                # a list category that is empty for every id, or for all but
+                # one: it spans as many numbered columns as its longest value
+                s3 = spec.copy()
+                hit = False
+                for md3 in (s3.obs_md, s3.samp_md):
+                    if md3:
+                        lone = r.randrange(len(md3)) if r.random() < .5 \
+                            else None
+                        for q_, e in enumerate(md3):
+                            e['lineage?'] = ['k__x', 'p__y'] if q_ == lone \
+                                else []
+                        hit = True
+                if hit:
+                    tm = gen.build(biom, s3, 'dense')
+                    spec_m = s3
+                    ctx.count('metadata_with_empty_list_category')
             for axis in ('observation', 'sample'):
-                md = spec.md(axis)
+                md = spec_m.md(axis)
                 if md is None:
                     try:
                         tm.metadata_to_dataframe(axis)
@@ -505,7 +523,7 @@ def run_case(ctx, index):
                         fail('metadata_to_dataframe-nomd', 'no KeyError')
                     continue
                 df = tm.metadata_to_dataframe(axis)
-                check_mddf(df, spec, axis, fail)
+                check_mddf(df, spec_m, axis, fail)
                 ctx.count('metadata_to_dataframe_checked')
     # ------------------------------------------------------------- CLI
     if index % 4 == 0:
